@@ -177,7 +177,7 @@ pub fn run(cfg: &Cfg, rep: &mut Rep) {
         }
     }
     let mut r = Rng::new(cfg.seed, 0x0500 + sh as u64);
-    let nrand = cfg.budget(160_000);
+    let nrand = cfg.budget(1_500_000);
     let lats: Vec<Vec<i128>> = UNIFORM.iter().map(|s| gen::reading_lattice(*s, &leap)).collect();
     for _ in 0..nrand {
         let si = r.below(6) as usize;
